@@ -59,12 +59,17 @@ package geom
 //@   ensures [no_point] noNaNBox(*b) ==> (result <==> !(exists x float64, y float64 :: inBox(*b, x, y)))
 //@   modifies nothing
 
+//@ pred emptyBox(b Bounds) = b.Max.X < b.Min.X || b.Max.Y < b.Min.Y
+//@ pred overlapsB(a Bounds, b Bounds) = !emptyBox(a) && !emptyBox(b) && a.Min.X <= b.Max.X && a.Min.Y <= b.Max.Y && a.Max.X >= b.Min.X && a.Max.Y >= b.Min.Y
+
 //@ func (b *Bounds) Overlaps
 //@   prop C04
 //@   mode fp
 //@   requires [nonnil] b != nil && b2 != nil
 //@   ensures [sound] noNaNBox(*b) && noNaNBox(*b2) && result ==> inBox(*b, goMax(b.Min.X, b2.Min.X), goMax(b.Min.Y, b2.Min.Y)) && inBox(*b2, goMax(b.Min.X, b2.Min.X), goMax(b.Min.Y, b2.Min.Y))
 //@   ensures [complete] noNaNBox(*b) && noNaNBox(*b2) && (exists x float64, y float64 :: inBox(*b, x, y) && inBox(*b2, x, y)) ==> result
+//@   ensures [point_box] noNaNBox(*b) && biteq(b2.Min, b2.Max) && !isNaN(b2.Min.X) && !isNaN(b2.Min.Y) ==> (result <==> inBox(*b, b2.Min.X, b2.Min.Y))
+//@   ensures [def] result <==> overlapsB(*b, *b2)
 //@   modifies nothing
 
 //@ func (b *Bounds) extendPoint
@@ -569,3 +574,219 @@ package geom
 //@   modifies nothing
 //@   loop 1 `for i, p := range mp`
 //@     invariant [prefix] 0 <= #1 && #1 <= len(mp) && fresh(out) && len(out) == len(mp)
+
+//@ -- ------------------------------------------------------------ C02: Within
+//@ pred finPt(p Point) = isFin(p.X) && isFin(p.Y)
+//@ spec orient(a Point, b Point, p Point) float64 = (b.X - a.X) * (p.Y - a.Y) - (b.Y - a.Y) * (p.X - a.X)
+//@ pred onSeg(p Point, a Point, b Point) = goMin(a.X, b.X) <= p.X && p.X <= goMax(a.X, b.X) && goMin(a.Y, b.Y) <= p.Y && p.Y <= goMax(a.Y, b.Y) && orient(a, b, p) == 0
+//@ pred crossUp(p Point, lo Point, hi Point) = lo.Y <= p.Y && p.Y < hi.Y && orient(lo, hi, p) > 0
+//@ pred cross(p Point, a Point, b Point) = a.Y <= b.Y ? crossUp(p, a, b) : crossUp(p, b, a)
+
+//@ spec rayRes(p Point, a Point, b Point) bool
+//@ spec posRes(p Point, a Point, b Point) bool
+
+//@ func rayIntersectsSegment
+//@   prop C02
+//@   mode xreal
+//@   defines [det] result == rayRes(p@0, a@0, b@0)
+//@   lift rayRes_spec
+//@   ensures [generic] finPt(p@0) && finPt(a@0) && finPt(b@0) && p@0.Y != a@0.Y && p@0.Y != b@0.Y && !onSeg(p@0, a@0, b@0) ==> (result <==> cross(p@0, a@0, b@0))
+//@   ensures [top_vertex] finPt(p@0) && finPt(a@0) && finPt(b@0) && p@0.Y == goMax(a@0.Y, b@0.Y) ==> !result && !cross(p@0, a@0, b@0)
+//@   modifies nothing
+//@   loop 1 `for p.Y == a.Y || p.Y == b.Y`
+//@     invariant [nudge] (finPt(p@0) && finPt(a@0) && finPt(b@0) ==> finPt(p) && finPt(a) && finPt(b) && a.Y <= b.Y && p.Y >= p@0.Y) && biteq(p.X, p@0.X) && ((p@0.Y != a.Y && p@0.Y != b.Y) ==> biteq(p.Y, p@0.Y)) && (p@0.Y == b.Y ==> p.Y == p@0.Y || p.Y > b.Y) && ((biteq(a, a@0) && biteq(b, b@0)) || (biteq(a, b@0) && biteq(b, a@0)))
+//@     decreases (a.Y >= p.Y ? 1 : 0) + (b.Y >= p.Y ? 1 : 0) when finPt(p@0) && finPt(a@0) && finPt(b@0)
+
+//@ func pointOnSegment
+//@   prop C02
+//@   mode xreal
+//@   defines [det] result == posRes(p, l1, l2)
+//@   lift posRes_spec
+//@   ensures [sound] finPt(p) && finPt(l1) && finPt(l2) && result ==> onSeg(p, l1, l2)
+//@   ensures [complete] finPt(p) && finPt(l1) && finPt(l2) && onSeg(p, l1, l2) && !(p == l1 && l1.X != l2.X) ==> result
+//@   modifies nothing
+
+//@ pred finPts(r []Point) = forall k int :: 0 <= k && k < len(r) ==> finPt(r[k])
+//@ pred needClose(r []Point) = !(r[len(r)-1].X == r[0].X && r[len(r)-1].Y == r[0].Y)
+//@ spec parTo(pt Point, r []Point, k int) bool decreases k = k <= 1 ? false : (parTo(pt, r, k-1) != rayRes(pt, r[k-2], r[k-1]))
+//@ spec closePar(pt Point, r []Point) bool = needClose(r) ? rayRes(pt, r[len(r)-1], r[0]) : false
+//@ spec ringPar(pt Point, r []Point) bool = closePar(pt, r) != parTo(pt, r, len(r))
+//@ spec onTo(pt Point, r []Point, k int) bool decreases k = k <= 1 ? false : (onTo(pt, r, k-1) || posRes(pt, r[k-2], r[k-1]))
+//@ lemma onTo_mono(pt Point, r []Point, k int, n int)
+//@   prop C02
+//@   mode xreal
+//@   requires k <= n && onTo(pt, r, k)
+//@   ensures onTo(pt, r, n)
+//@   induction n
+//@ pred ringOn(pt Point, r []Point) = (needClose(r) && posRes(pt, r[len(r)-1], r[0])) || onTo(pt, r, len(r))
+//@ pred considered(pt Point, r []Point) = len(r) >= 3 && overlapsB(foldPts(emptyB(), r, len(r)), Bounds(pt, pt))
+//@ spec polyParTo(pt Point, pg []Path, k int) bool decreases k = k <= 0 ? false : (polyParTo(pt, pg, k-1) != (considered(pt, pg[k-1]) ? ringPar(pt, pg[k-1]) : false))
+//@ spec polyOnTo(pt Point, pg []Path, k int) bool decreases k = k <= 0 ? false : (polyOnTo(pt, pg, k-1) || (considered(pt, pg[k-1]) && ringOn(pt, pg[k-1])))
+//@ lemma polyOnTo_mono(pt Point, pg []Path, k int, n int)
+//@   prop C02
+//@   mode xreal
+//@   requires k <= n && polyOnTo(pt, pg, k)
+//@   ensures polyOnTo(pt, pg, n)
+//@   induction n
+
+//@ func pointInPolygon
+//@   prop C02
+//@   mode xreal
+//@   requires [bounds] len(pgBounds) == len(pg) && (forall i int :: 0 <= i && i < len(pg) ==> pgBounds[i] != nil && biteq(*pgBounds[i], foldPts(emptyB(), pg[i], len(pg[i]))))
+//@   ensures [status] result == Outside || result == Inside || result == OnEdge
+//@   ensures [on_edge] result == OnEdge <==> polyOnTo(pt, pg, len(pg))
+//@   using polyOnTo_mono(pt, pg, #1 + 1, len(pg)), onTo_mono(pt, ring, i + 1, len(ring))
+//@   ensures [parity] result != OnEdge ==> (result == Inside <==> polyParTo(pt, pg, len(pg)))
+//@   modifies nothing
+//@   loop 1 `for i, ring := range pg`
+//@     invariant [rings] 0 <= #1 && #1 <= len(pg) && (in == Outside || in == Inside) && (in == Inside <==> polyParTo(pt, pg, #1)) && !polyOnTo(pt, pg, #1)
+//@   loop 2 `for i := 1; i < len(ring); i++`
+//@     invariant [segs] 1 <= i && i <= len(ring) && len(ring) >= 3 && (in == Outside || in == Inside) && considered(pt, ring) && !polyOnTo(pt, pg, #1) && !(needClose(ring) && posRes(pt, ring[len(ring)-1], ring[0])) && !onTo(pt, ring, i)
+//@     invariant [par] in == Inside <==> (polyParTo(pt, pg, #1) != (closePar(pt, ring) != parTo(pt, ring, i)))
+//@     decreases len(ring) - i
+
+//@ lemma foldPts_noNaN(b Bounds, pts []Point, k int)
+//@   prop C02
+//@   mode xreal
+//@   requires 0 <= k && k <= len(pts) && noNaNBox(b) && finPts(pts)
+//@   ensures noNaNBox(foldPts(b, pts, k))
+//@   induction k
+
+//@ func (p Polygon) ringBounds
+//@   prop C02, C03
+//@   mode xreal
+//@   ensures [env] fresh(result) && len(result) == len(p) && (forall i int :: 0 <= i && i < len(p) ==> result[i] != nil && fresh(result[i]) && biteq(*result[i], foldPts(emptyB(), p[i], len(p[i]))))
+//@   modifies nothing
+//@   loop 1 `for i, r := range p`
+//@     invariant [prefix] 0 <= #1 && #1 <= len(p) && fresh(bounds) && len(bounds) == len(p) && (forall i int :: 0 <= i && i < #1 ==> bounds[i] != nil && fresh(bounds[i]) && biteq(*bounds[i], foldPts(emptyB(), p[i], len(p[i]))))
+
+//@ pred finRings(p []Path) = forall i int :: 0 <= i && i < len(p) ==> finPts(p[i])
+//@ pred finPolys(mp []Polygon) = forall i int :: 0 <= i && i < len(mp) ==> finRings(mp[i])
+//@ pred finPolygonal(pg Polygonal) = (typeof(pg) == Polygon ==> finRings(pg.(Polygon))) && (typeof(pg) == MultiPolygon ==> finPolys(pg.(MultiPolygon))) && (typeof(pg) == *Bounds ==> pg.(*Bounds) != nil && finPt(pg.(*Bounds).Min) && finPt(pg.(*Bounds).Max))
+//@ spec mOnTo(pt Point, mp []Polygon, k int) bool decreases k = k <= 0 ? false : (mOnTo(pt, mp, k-1) || polyOnTo(pt, mp[k-1], len(mp[k-1])))
+//@ spec mParTo(pt Point, mp []Polygon, k int) bool decreases k = k <= 0 ? false : (mParTo(pt, mp, k-1) != (!polyOnTo(pt, mp[k-1], len(mp[k-1])) && polyParTo(pt, mp[k-1], len(mp[k-1]))))
+//@ lemma mOnTo_mono(pt Point, mp []Polygon, k int, n int)
+//@   prop C02
+//@   mode xreal
+//@   requires k <= n && mOnTo(pt, mp, k)
+//@   ensures mOnTo(pt, mp, n)
+//@   induction n
+
+//@ interface Polygonal.Polygons
+//@   prop C01, C02
+//@   requires [recv] typeof(self) == *Bounds ==> self.(*Bounds) != nil
+//@   ensures [polygon] typeof(self) == Polygon ==> len(result) == 1 && result[0] == self.(Polygon)
+//@   ensures [multi] typeof(self) == MultiPolygon ==> result == self.(MultiPolygon)
+//@   ensures [box] typeof(self) == *Bounds ==> len(result) == 1 && len(result[0]) == 1 && len(result[0][0]) == 4 && biteq(result[0][0][0], self.(*Bounds).Min) && biteq(result[0][0][1], Point(self.(*Bounds).Max.X, self.(*Bounds).Min.Y)) && biteq(result[0][0][2], self.(*Bounds).Max) && biteq(result[0][0][3], Point(self.(*Bounds).Min.X, self.(*Bounds).Max.Y))
+//@   modifies nothing
+
+//@ func (p Polygon) Polygons
+//@   prop C01, C02
+//@   mode ufloat
+//@   ensures [fresh] fresh(result)
+//@   modifies nothing
+
+//@ func (mp MultiPolygon) Polygons
+//@   prop C01, C02
+//@   mode ufloat
+//@   modifies nothing
+
+//@ func (b *Bounds) Polygons
+//@   prop C01, C02
+//@   mode ufloat
+//@   requires [nonnil] b != nil
+//@   ensures [fresh] fresh(result)
+//@   modifies nothing
+
+//@ func pointInPolygonal
+//@   prop C02
+//@   mode xreal
+//@   requires [nonnil] pg != nil
+//@   requires [recv] typeof(pg) == *Bounds ==> pg.(*Bounds) != nil
+//@   ensures [status] result == Outside || result == Inside || result == OnEdge
+//@   ensures [polygon_on] typeof(pg) == Polygon ==> (result == OnEdge <==> polyOnTo(pt, pg.(Polygon), len(pg.(Polygon))))
+//@   ensures [polygon_par] typeof(pg) == Polygon && result != OnEdge ==> (result == Inside <==> polyParTo(pt, pg.(Polygon), len(pg.(Polygon))))
+//@   ensures [multi_on] typeof(pg) == MultiPolygon ==> (result == OnEdge <==> mOnTo(pt, pg.(MultiPolygon), len(pg.(MultiPolygon))))
+//@   using mOnTo_mono(pt, pg.(MultiPolygon), #1 + 1, len(pg.(MultiPolygon)))
+//@   ensures [multi_par] typeof(pg) == MultiPolygon && result != OnEdge ==> (result == Inside <==> mParTo(pt, pg.(MultiPolygon), len(pg.(MultiPolygon))))
+//@   modifies nothing
+//@   loop 1 `for _, poly := range pg.Polygons()`
+//@     invariant [count] 0 <= #1 && (in == Outside || in == Inside)
+//@     invariant [multi] typeof(pg) == MultiPolygon ==> #1 <= len(pg.(MultiPolygon)) && (in == Inside <==> mParTo(pt, pg.(MultiPolygon), #1)) && !mOnTo(pt, pg.(MultiPolygon), #1)
+//@     invariant [polygon] typeof(pg) == Polygon ==> #1 <= 1 && (#1 == 0 ==> in == Outside) && (#1 == 1 ==> (in == Inside <==> polyParTo(pt, pg.(Polygon), len(pg.(Polygon)))) && !polyOnTo(pt, pg.(Polygon), len(pg.(Polygon))))
+
+//@ func (p Point) Within
+//@   prop C02
+//@   mode xreal
+//@   requires [nonnil] poly != nil
+//@   requires [recv] typeof(poly) == *Bounds ==> poly.(*Bounds) != nil
+//@   ensures [polygon_on] typeof(poly) == Polygon ==> (result == OnEdge <==> polyOnTo(p, poly.(Polygon), len(poly.(Polygon))))
+//@   ensures [polygon_par] typeof(poly) == Polygon && result != OnEdge ==> (result == Inside <==> polyParTo(p, poly.(Polygon), len(poly.(Polygon))))
+//@   ensures [multi_on] typeof(poly) == MultiPolygon ==> (result == OnEdge <==> mOnTo(p, poly.(MultiPolygon), len(poly.(MultiPolygon))))
+//@   ensures [multi_par] typeof(poly) == MultiPolygon && result != OnEdge ==> (result == Inside <==> mParTo(p, poly.(MultiPolygon), len(poly.(MultiPolygon))))
+//@   modifies nothing
+
+//@ -- the structured parity of pointInPolygon is the crossing-number parity of the half-open rule
+//@ -- whenever the point's height differs from every vertex height and the point is on no segment
+//@ spec xParTo(pt Point, r []Point, k int) bool decreases k = k <= 1 ? false : (xParTo(pt, r, k-1) != cross(pt, r[k-2], r[k-1]))
+//@ lemma parTo_is_crossing_parity(pt Point, r []Point, k int)
+//@   prop C02
+//@   mode xreal
+//@   requires 0 <= k && k <= len(r) && finPt(pt) && finPts(r)
+//@   requires forall j int :: 0 <= j && j < len(r) ==> r[j].Y != pt.Y
+//@   requires forall j int :: 1 <= j && j < len(r) ==> !onSeg(pt, r[j-1], r[j])
+//@   ensures parTo(pt, r, k) == xParTo(pt, r, k)
+//@   induction k
+//@   using rayRes_spec(pt, r[k-2], r[k-1])
+//@ lemma onTo_is_on_some_segment(pt Point, r []Point, k int)
+//@   prop C02
+//@   mode xreal
+//@   requires 0 <= k && k <= len(r) && finPt(pt) && finPts(r) && onTo(pt, r, k)
+//@   ensures exists j int :: 1 <= j && j < k && onSeg(pt, r[j-1], r[j])
+//@   induction k
+//@   using posRes_spec(pt, r[k-2], r[k-1])
+
+//@ spec outP(pt Point, P []Path) bool = !polyOnTo(pt, P, len(P)) && !polyParTo(pt, P, len(P))
+//@ spec outM(pt Point, M []Polygon) bool = !mOnTo(pt, M, len(M)) && !mParTo(pt, M, len(M))
+//@ spec anyOutP(pts []Point, P []Path, k int) bool decreases k = k <= 0 ? false : (anyOutP(pts, P, k-1) || outP(pts[k-1], P))
+//@ spec anyOutM(pts []Point, M []Polygon, k int) bool decreases k = k <= 0 ? false : (anyOutM(pts, M, k-1) || outM(pts[k-1], M))
+//@ lemma anyOutP_mono(pts []Point, P []Path, k int, n int)
+//@   prop C02
+//@   mode xreal
+//@   requires k <= n && anyOutP(pts, P, k)
+//@   ensures anyOutP(pts, P, n)
+//@   induction n
+//@ lemma anyOutM_mono(pts []Point, M []Polygon, k int, n int)
+//@   prop C02
+//@   mode xreal
+//@   requires k <= n && anyOutM(pts, M, k)
+//@   ensures anyOutM(pts, M, n)
+//@   induction n
+
+//@ func (mp MultiPoint) Within
+//@   prop C02
+//@   mode xreal
+//@   requires [nonnil] poly != nil
+//@   requires [recv] typeof(poly) == *Bounds ==> poly.(*Bounds) != nil
+//@   ensures [status] result == Outside || result == Inside
+//@   ensures [polygon] typeof(poly) == Polygon ==> (result == Outside <==> anyOutP(mp, poly.(Polygon), len(mp)))
+//@   using anyOutP_mono(mp, poly.(Polygon), #1 + 1, len(mp))
+//@   ensures [multi] typeof(poly) == MultiPolygon ==> (result == Outside <==> anyOutM(mp, poly.(MultiPolygon), len(mp)))
+//@   using anyOutM_mono(mp, poly.(MultiPolygon), #1 + 1, len(mp))
+//@   modifies nothing
+//@   loop 1 `for _, p := range mp`
+//@     invariant [none_out] 0 <= #1 && #1 <= len(mp) && (typeof(poly) == Polygon ==> !anyOutP(mp, poly.(Polygon), #1)) && (typeof(poly) == MultiPolygon ==> !anyOutM(mp, poly.(MultiPolygon), #1))
+
+//@ func (l LineString) Within
+//@   prop C02
+//@   mode xreal
+//@   requires [nonnil] p != nil
+//@   requires [recv] typeof(p) == *Bounds ==> p.(*Bounds) != nil
+//@   ensures [status] result == Outside || result == Inside
+//@   ensures [polygon] typeof(p) == Polygon ==> (result == Outside <==> anyOutP(l, p.(Polygon), len(l)))
+//@   using anyOutP_mono(l, p.(Polygon), #1 + 1, len(l))
+//@   ensures [multi] typeof(p) == MultiPolygon ==> (result == Outside <==> anyOutM(l, p.(MultiPolygon), len(l)))
+//@   using anyOutM_mono(l, p.(MultiPolygon), #1 + 1, len(l))
+//@   modifies nothing
+//@   loop 1 `for _, pp := range l`
+//@     invariant [none_out] 0 <= #1 && #1 <= len(l) && (typeof(p) == Polygon ==> !anyOutP(l, p.(Polygon), #1)) && (typeof(p) == MultiPolygon ==> !anyOutM(l, p.(MultiPolygon), #1))
